@@ -172,6 +172,16 @@ def contract_problem(argv, r, d):
         i += 1
     if bad_flag is not None and r["code"] != 1 and not any(not a.isascii() for a in argv):
         return "malformed or unknown flag {} but exit status {} (usage errors must end with status 1)".format(bad_flag, r["code"])
+    # documented contract: options of one mode are usage errors in another (whatever value they carry)
+    if bad_flag is None and all(a.isascii() for a in argv):
+        mode = next((m for m in ("debug", "assemble", "preprocess", "disassemble") if m in scan), "")
+        allowed = {"--throttle": [""], "--init": ["", "debug"], "--code": ["assemble"], "--data": ["assemble"], "--stdout": ["assemble"],
+                   "--obfuscate": ["preprocess"]}
+        info = any(a in scan for a in ("--help", "-h", "--version", "-v", "--credits"))
+        for a in scan:
+            name = a.split("=")[0] if a.startswith(("--throttle=", "--init=")) else a
+            if name in allowed and mode not in allowed[name] and not info and r["code"] != 1:
+                return "{} is not an option of {} mode but exit status {} (must be a usage error)".format(name, mode or "run", r["code"])
     if r["code"] == 1:
         if r["out"]:
             return "usage error (status 1) but something was written to stdout: {!r}".format(r["out"][:60])
